@@ -134,7 +134,8 @@ Proof.
   { exists i. split; [|reflexivity]. clear -Hn.
     assert (P : forall s, nth_error (log s) i = Some e -> forall o, nth_error (log (fst (step cfg s o))) i = Some e).
     { intros s Hs o. assert (L : exists l, log (fst (step cfg s o)) = (log s ++ l)%list).
-      { destruct o; cbn [step]; try (exists []; rewrite app_nil_r; reflexivity).
+      { destruct o; cbn [step]; try (exists []; rewrite app_nil_r; reflexivity);
+          try (new_flows_tac s fresh_grant_log ltac:(exists []; rewrite app_nil_r; reflexivity); exact FGfact).
         - unfold authorize.
           destruct (clients s (az_client a)) as [cl|]; [|exists []; rewrite app_nil_r; reflexivity].
           destruct (negb (scopes_ok cfg cl (az_scopes a))); [exists []; rewrite app_nil_r; reflexivity|].
